@@ -610,7 +610,7 @@ Proof.
     [|apply Hm|reflexivity|exact Wf].
   assert (Er : render_start (m_start m) ++ CRLF ++ render_hdrs (map field_nv (all_fields r)) ++ CRLF ++ framing_wire (q_framing r)
                = render m).
-  { unfold render. rewrite (all_fields_nv r u). unfold m at 3, to_msg. cbn [m_framing]. now rewrite framing_wire_bytes. }
+  { unfold render. unfold m at 3 4. rewrite (all_fields_nv r u). unfold to_msg. cbn [m_framing]. now rewrite framing_wire_bytes. }
   rewrite Er. change (msg_type m) with REQUEST_PARSER in C. rewrite C. cbn [bind].
   eexists. split; [reflexivity|].
   destruct (expected_fields m []) as (F1 & F2 & _ & F4 & F5 & F6).
@@ -621,8 +621,719 @@ Proof.
   - exact (expected_ty m []).
   - exists u. exact G2.
   - rewrite G5. exact La.
-  - rewrite F4, (all_fields_nv r u). apply add_all_lift, nodup_fields, P.
+  - rewrite F4. unfold m. rewrite (all_fields_nv r u). apply add_all_lift, nodup_fields, P.
   - rewrite F5. unfold m, to_msg. cbn [m_framing]. destruct (q_framing r) as [|h d|h s]; cbn [to_framing body_of_framing];
       [reflexivity|reflexivity|now rewrite stream_body_of].
   - rewrite expected_chunked. unfold m, to_msg. cbn [m_framing]. destruct (q_framing r); reflexivity.
+Qed.
+
+(* ===================================================================================== *)
+(* C. the reference parser reads back what the builders wrote                              *)
+
+Definition out_field (nv : bytes * bytes) : Prop := is_token (fst nv) = true /\ rfc_value (snd nv) = true.
+
+Lemma is_ws_false_ows x : is_ws x = false -> is_ows x = false.
+Proof. intros H. destruct (is_ows x) eqn:E; [|reflexivity]. apply is_ows_facts in E. destruct E as [E _]. congruence. Qed.
+
+Lemma ltrim_ows_stripped v : stripped v = true -> ltrim_ows v = v /\ ltrim_ows (rev v) = rev v.
+Proof.
+  destruct v as [|x t]; [split; reflexivity|]. unfold stripped. intros H. apply andb_true_iff in H as [H1 H2].
+  apply negb_true_iff in H1, H2. split.
+  - cbn [ltrim_ows]. now rewrite (is_ws_false_ows _ H1).
+  - destruct (exists_last (l := x :: t)) as (l' & y & E); [discriminate|]. rewrite E in *. rewrite last_last in H2.
+    rewrite rev_app_distr. cbn [rev app ltrim_ows]. now rewrite (is_ws_false_ows _ H2).
+Qed.
+
+Lemma trim_ows_sp v : rfc_value v = true -> trim_ows (SP :: v) = v.
+Proof.
+  unfold rfc_value. intros H. apply andb_true_iff in H as [_ Hs]. destruct (ltrim_ows_stripped v Hs) as [L1 L2].
+  unfold trim_ows. cbn [ltrim_ows]. change (is_ows SP) with true. cbv iota. rewrite L1, L2. apply rev_involutive.
+Qed.
+
+Lemma out_field_line k v : out_field (k, v) ->
+  ~ In LF (build_http_header k v) /\ parse_field_line (build_http_header k v) = Some (k, v) /\
+  exists x l, build_http_header k v = x :: l.
+Proof.
+  intros [Hk Hv]. cbn [fst snd] in *. destruct (token_facts _ Hk) as (N1 & _ & N3 & _ & N5 & _).
+  destruct (rfc_value_facts _ Hv) as (_ & _ & V3). unfold build_http_header. repeat split.
+  - rewrite !in_app_iff. cbn [In]. unfold COLON, SP, LF in *. intros [H|[[H|[]]|[[H|[]]|H]]]; try contradiction; discriminate.
+  - unfold parse_field_line. cbn [app]. rewrite (split_once_byte_notin COLON k _ N3). rewrite Hk.
+    cbn [forallb]. change (is_field_byte SP) with true. unfold rfc_value in Hv. apply andb_true_iff in Hv as [Hf Hs].
+    rewrite Hf. cbn [andb]. rewrite trim_ows_sp; [reflexivity|]. unfold rfc_value. now rewrite Hf, Hs.
+  - destruct k as [|x t]; [congruence|]. exists x. eexists. reflexivity.
+Qed.
+
+Lemma parse_fields_lines hs : forall fuel rest, Forall out_field hs -> (length hs < fuel)%nat ->
+  parse_fields fuel (header_lines hs ++ CRLF ++ rest) = Some (hs, rest).
+Proof.
+  induction hs as [|[k v] t IH]; intros fuel rest F Hl; (destruct fuel as [|fuel]; [cbn [length] in Hl; lia|]).
+  - cbn [header_lines app parse_fields]. rewrite split_once_crlf_head. reflexivity.
+  - inversion F as [|? ? Hkv Ft]; subst. destruct (out_field_line k v Hkv) as (L1 & L2 & x & l & L3).
+    cbn [header_lines parse_fields]. rewrite <- !app_assoc.
+    rewrite (split_once_crlf_no_lf _ _ L1). rewrite L3 at 1. rewrite L2.
+    rewrite (IH fuel rest Ft) by (cbn [length] in Hl; lia). reflexivity.
+Qed.
+
+Lemma header_lines_length hs : (length hs <= length (header_lines hs))%nat.
+Proof.
+  induction hs as [|[k v] t IH]; [cbn; lia|]. cbn [header_lines length]. rewrite !app_length. cbn [length CRLF]. lia.
+Qed.
+
+(* how the header fields frame the bytes after the blank line, for the reference parser *)
+Definition framing_out (hs : bdict) (wire body : bytes) : Prop :=
+  match fields_named TRANSFER_ENCODING hs, fields_named CONTENT_LENGTH hs with
+  | [], [] => wire = [] /\ body = []
+  | [te], [] => lower te = CHUNKED /\ ref_dechunk_bytes wire = Some (body, [])
+  | [], [cl] => is_dec cl = true /\ decval cl = len wire /\ body = wire
+  | _, _ => False
+  end.
+
+Lemma ref_parse_render m t v hs wire body :
+  is_token m = true -> nonempty t = true -> forallb is_vchar t = true -> (v = HTTP_1_1 \/ v = HTTP_1_0) ->
+  Forall out_field hs -> framing_out hs wire body ->
+  ref_parse_request (render_forward m t v hs wire) =
+  Some {| f_method := m; f_target := t; f_version := v; f_headers := hs; f_body := body |}.
+Proof.
+  intros Hm Hne Ht Hv Hhs Hf. destruct (token_facts _ Hm) as (_ & _ & _ & _ & M5 & M6).
+  destruct (version_facts v Hv) as (_ & V2 & V3 & V4).
+  assert (T5 : ~ In LF t) by (intros Hi; apply (forallb_In' _ _ Ht), is_vchar_facts in Hi; tauto).
+  assert (T6 : ~ In SP t) by (intros Hi; apply (forallb_In' _ _ Ht), is_vchar_facts in Hi; tauto).
+  unfold ref_parse_request, render_forward.
+  replace (m ++ [SP] ++ t ++ [SP] ++ v ++ CRLF ++ header_lines hs ++ CRLF ++ wire)
+    with ((m ++ SP :: t ++ SP :: v) ++ CRLF ++ header_lines hs ++ CRLF ++ wire)
+    by (rewrite <- app_assoc; cbn [app]; rewrite <- app_assoc; reflexivity).
+  rewrite split_once_crlf_no_lf.
+  2:{ rewrite in_app_iff. cbn [In]. rewrite in_app_iff. cbn [In]. unfold SP, LF in *. intros [H|[H|[H|[H|H]]]]; try contradiction; discriminate. }
+  rewrite (ParserFacts.splitn2_three m t v M6 T6). rewrite Hm, Hne, Ht, V4. cbn [andb].
+  rewrite parse_fields_lines; [|exact Hhs|].
+  2:{ pose proof (header_lines_length hs). rewrite app_length. lia. }
+  unfold framing_out in Hf.
+  destruct (fields_named TRANSFER_ENCODING hs) as [|te [|te2 tl]]; destruct (fields_named CONTENT_LENGTH hs) as [|cl [|cl2 cl3]];
+    try contradiction.
+  - destruct Hf as [-> ->]. reflexivity.
+  - destruct Hf as (H1 & H2 & ->). rewrite H1, H2, N.eqb_refl. reflexivity.
+  - destruct Hf as (H1 & H2). rewrite H1, bytes_eqb_refl, H2. reflexivity.
+Qed.
+
+(* ---- the executable chunked recogniser accepts every stream of the grammar (completeness) ---- *)
+Lemma ext_ok_head e : ext_ok e = true -> match e with [] => True | x :: _ => Grammar.is_hex x = false end.
+Proof.
+  destruct e as [|x t]; [trivial|]. unfold ext_ok. cbn [forallb]. intros H. apply orb_true_iff in H as [H|H].
+  - apply andb_true_iff in H as [H _]. unfold is_ows in H. apply orb_true_iff in H as [H|H]; apply N.eqb_eq in H; subst; reflexivity.
+  - apply andb_true_iff in H as [H _]. apply N.eqb_eq in H. subst. reflexivity.
+Qed.
+
+Lemma span_hex_app sz e : forallb Grammar.is_hex sz = true -> ext_ok e = true -> span_hex (sz ++ e) = (sz, e).
+Proof.
+  intros Hs He. induction sz as [|x t IH]; cbn [app].
+  - pose proof (ext_ok_head e He) as Hh. destruct e as [|y u]; [reflexivity|]. cbn [span_hex]. now rewrite Hh.
+  - cbn [forallb] in Hs. apply andb_true_iff in Hs as [Hx Ht]. cbn [span_hex]. rewrite Hx, (IH Ht). reflexivity.
+Qed.
+
+Lemma parse_size_line_complete sz e : nonempty sz = true -> forallb Grammar.is_hex sz = true -> ext_ok e = true ->
+  parse_size_line (sz ++ e) = Some (hexval sz, sz, e).
+Proof. intros H1 H2 H3. unfold parse_size_line. rewrite (span_hex_app sz e H2 H3), H1, H3. reflexivity. Qed.
+
+Lemma parse_trailers_complete ts : forall fuel rest, forallb wf_field_line ts = true -> (length ts < fuel)%nat ->
+  parse_trailers fuel (concat (map (fun t => t ++ CRLF) ts) ++ CRLF ++ rest) = Some (ts, rest).
+Proof.
+  induction ts as [|t ts IH]; intros fuel rest W Hl; (destruct fuel as [|fuel]; [cbn [length] in Hl; lia|]).
+  - cbn [map concat app parse_trailers]. rewrite split_once_crlf_head. reflexivity.
+  - cbn [forallb] in W. apply andb_true_iff in W as [Wt Wts].
+    destruct (wf_field_line_trailer t Wt) as [Tf Tne].
+    cbn [map concat parse_trailers]. rewrite <- !app_assoc. rewrite (crlf_free_split _ _ Tf).
+    destruct t as [|t0 t']; [congruence|]. rewrite Wt. rewrite (IH fuel rest Wts) by (cbn [length] in Hl; lia). reflexivity.
+Qed.
+
+Lemma concat_trailers_length (ts : list bytes) : (length ts <= length (concat (map (fun t => t ++ CRLF) ts)))%nat.
+Proof. induction ts as [|t ts IH]; [cbn; lia|]. cbn [map concat length]. rewrite !app_length. cbn [length CRLF]. lia. Qed.
+
+Lemma len_app' (a b : bytes) : len (a ++ b) = len a + len b.
+Proof. unfold len. rewrite app_length. lia. Qed.
+
+Lemma parse_chunked_complete cs : forall fuel last lext ts rest,
+  forallb wf_chunk cs = true -> nonempty last = true -> forallb (fun x => x =? 48) last = true -> ext_ok lext = true ->
+  forallb wf_field_line ts = true -> (length cs < fuel)%nat ->
+  parse_chunked fuel (render_chunked {| ch_chunks := cs; ch_last_size := last; ch_last_ext := lext; ch_trailers := ts |} ++ rest) =
+  Some ({| ch_chunks := cs; ch_last_size := last; ch_last_ext := lext; ch_trailers := ts |}, rest).
+Proof.
+  induction cs as [|c cs IH]; intros fuel last lext ts rest Wc Wl Wz We Wt Hl;
+    (destruct fuel as [|fuel]; [cbn [length] in Hl; lia|]); unfold render_chunked;
+    cbn [ch_chunks ch_last_size ch_last_ext ch_trailers map concat app].
+  - destruct (hexval_zeros last Wz) as [Hh Hv].
+    cbn [parse_chunked]. rewrite <- !app_assoc. rewrite (app_assoc last lext).
+    rewrite (crlf_free_split _ _ (size_line_crlf_free last lext Hh We)).
+    rewrite (parse_size_line_complete last lext Wl Hh We), Hv. change (0 =? 0) with true. cbv iota.
+    rewrite parse_trailers_complete; [reflexivity|exact Wt|].
+    rewrite !app_length. pose proof (concat_trailers_length ts). lia.
+  - cbn [forallb] in Wc. apply andb_true_iff in Wc as [Wc1 Wcs]. destruct c as [sz ext data].
+    unfold wf_chunk in Wc1. cbn [ck_size ck_ext ck_data] in Wc1.
+    apply andb_true_iff in Wc1 as [Wc1 W5]. apply andb_true_iff in Wc1 as [Wc1 W4]. apply andb_true_iff in Wc1 as [Wc1 W3].
+    apply andb_true_iff in Wc1 as [W1 W2]. apply N.eqb_eq in W5.
+    unfold render_chunk at 1. cbn [ck_size ck_ext ck_data]. cbn [parse_chunked]. rewrite <- !app_assoc.
+    rewrite (app_assoc sz ext). rewrite (crlf_free_split _ _ (size_line_crlf_free sz ext W2 W3)).
+    rewrite (parse_size_line_complete sz ext W1 W2 W3), W5.
+    assert (Hd : len data <> 0) by (destruct data; [discriminate|unfold len; cbn [length]; lia]).
+    apply N.eqb_neq in Hd. rewrite Hd.
+    set (tail := concat (map render_chunk cs) ++ last ++ lext ++ CRLF ++ concat (map (fun t => t ++ CRLF) ts) ++ CRLF ++ rest).
+    replace (len data <=? len (data ++ CRLF ++ tail)) with true by (symmetry; apply N.leb_le; rewrite len_app'; lia).
+    rewrite take_app_exact, drop_app_exact. rewrite is_prefix_self_app. cbn [CRLF app skipn].
+    pose proof (IH fuel last lext ts rest Wcs Wl Wz We Wt ltac:(cbn [length] in Hl; lia)) as R.
+    unfold render_chunked in R. cbn [ch_chunks ch_last_size ch_last_ext ch_trailers] in R. rewrite <- !app_assoc in R.
+    fold tail in R. rewrite R. reflexivity.
+Qed.
+
+Lemma chunks_length (cs : list Grammar.chunk) : (length cs <= length (concat (map render_chunk cs)))%nat.
+Proof.
+  induction cs as [|c cs IH]; [cbn; lia|]. cbn [map concat length]. unfold render_chunk at 1. rewrite !app_length. cbn [length CRLF]. lia.
+Qed.
+
+Lemma rechunk_render b : rechunk b = render_chunked (chunks_of b DEFAULT_BUFFER_SIZE).
+Proof.
+  unfold rechunk, render_chunked, chunks_of. cbn [ch_chunks ch_last_size ch_last_ext ch_trailers map concat app].
+  now rewrite to_chunks_aux_render.
+Qed.
+
+Lemma ref_dechunk_rechunk b : ref_dechunk_bytes (rechunk b) = Some (b, []).
+Proof.
+  assert (K : 0 < DEFAULT_BUFFER_SIZE) by reflexivity.
+  pose proof (chunks_of_wf b DEFAULT_BUFFER_SIZE K) as W. pose proof (chunks_of_dechunk b DEFAULT_BUFFER_SIZE K) as D.
+  unfold ref_dechunk_bytes. rewrite rechunk_render.
+  set (s := chunks_of b DEFAULT_BUFFER_SIZE) in *. destruct s as [cs last lext ts] eqn:Es.
+  unfold wf_chunked in W. cbn [ch_chunks ch_last_size ch_last_ext ch_trailers] in W.
+  apply andb_true_iff in W as [W W5]. apply andb_true_iff in W as [W W4]. apply andb_true_iff in W as [W W3].
+  apply andb_true_iff in W as [W1 W2].
+  rewrite <- (app_nil_r (render_chunked _)) at 2.
+  rewrite parse_chunked_complete; try assumption.
+  - now rewrite D.
+  - unfold render_chunked. cbn [ch_chunks]. rewrite app_length. pose proof (chunks_length cs). lia.
+Qed.
+
+Lemma rechunk_nonempty b : truthy (Some (rechunk b)) = true.
+Proof. unfold rechunk. destruct (to_chunks_aux _ _ b); reflexivity. Qed.
+
+(* ---- names survive the rewriting unless they are hop-by-hop, via or disabled ---- *)
+Lemma get_ci_filter (g : bytes -> bool) ln hs : g ln = false ->
+  get_ci ln (filter (fun nv => negb (g (lower (fst nv)))) hs) = get_ci ln hs.
+Proof.
+  intros Hg. induction hs as [|[k v] t IH]; [reflexivity|]. cbn [filter fst].
+  destruct (g (lower k)) eqn:E; cbn [negb]; rewrite ?get_ci_cons.
+  - destruct (bytes_eqb_spec (lower k) ln) as [X|X]; [congruence|exact IH].
+  - now rewrite IH.
+Qed.
+
+Lemma get_ci_set_field ln name v hs :
+  get_ci ln (set_field name v hs) = if bytes_eqb ln (lower name) then Some v else get_ci ln hs.
+Proof.
+  induction hs as [|[k v'] t IH]; cbn [set_field].
+  - rewrite get_ci_cons. destruct (bytes_eqb_spec (lower name) ln), (bytes_eqb_spec ln (lower name)); try reflexivity; congruence.
+  - destruct (bytes_eqb_spec (lower k) (lower name)) as [E|E]; rewrite !get_ci_cons.
+    + rewrite E. destruct (bytes_eqb_spec (lower name) ln), (bytes_eqb_spec ln (lower name)); try reflexivity; congruence.
+    + rewrite IH. destruct (bytes_eqb_spec (lower k) ln), (bytes_eqb_spec ln (lower name)); try reflexivity; congruence.
+Qed.
+
+Lemma set_field_new name v hs : get_ci (lower name) hs = None -> set_field name v hs = hs ++ [(name, v)].
+Proof.
+  induction hs as [|[k v'] t IH]; intros H; [reflexivity|]. rewrite get_ci_cons in H. cbn [set_field app].
+  destruct (bytes_eqb (lower k) (lower name)); [discriminate|]. now rewrite IH.
+Qed.
+
+Lemma with_via_appended cfg hs : cf_via_append cfg = true -> with_via cfg hs = via_appended (cf_agent cfg) hs.
+Proof.
+  intros H. unfold with_via, via_appended. rewrite H. destruct (get_ci L_VIA hs) eqn:E; [reflexivity|].
+  apply set_field_new. exact E.
+Qed.
+
+Definition rewrite_fields (cfg : fcfg) (hs : bdict) : bdict := drop_disabled cfg (with_via cfg (drop_hop hs)).
+
+Lemma get_ci_rewrite cfg ln hs : is_hop ln = false -> ln <> L_VIA -> mem_bytes ln (cf_disable cfg) = false ->
+  get_ci ln (rewrite_fields cfg hs) = get_ci ln hs.
+Proof.
+  intros H1 H2 H3. unfold rewrite_fields, drop_disabled, drop_hop.
+  rewrite (get_ci_filter (fun l => mem_bytes l (cf_disable cfg)) ln _ H3).
+  unfold with_via.
+  assert (G : forall v, get_ci ln (set_field H_VIA v (filter (fun nv => negb (is_hop (lower (fst nv)))) hs)) = get_ci ln hs).
+  { intros v. rewrite get_ci_set_field. change (lower H_VIA) with L_VIA.
+    destruct (bytes_eqb_spec ln L_VIA); [contradiction|]. apply (get_ci_filter is_hop ln hs H1). }
+  destruct (get_ci L_VIA _); apply G.
+Qed.
+
+Lemma NoDup_rewrite cfg hs : NoDup (lkeys hs) -> NoDup (lkeys (rewrite_fields cfg hs)).
+Proof.
+  intros H. unfold rewrite_fields, drop_disabled. apply NoDup_lkeys_filter. unfold with_via.
+  destruct (get_ci L_VIA _); apply NoDup_lkeys_set_field; unfold drop_hop; now apply NoDup_lkeys_filter.
+Qed.
+
+(* with unique names, the fields named ln are the one get_ci finds *)
+Lemma fields_named_get ln hs : NoDup (lkeys hs) ->
+  fields_named ln hs = match get_ci ln hs with Some v => [v] | None => [] end.
+Proof.
+  unfold fields_named. induction hs as [|[k v] t IH]; intros H; [reflexivity|].
+  cbn [lkeys map fst] in H. inversion H as [|? ? Hn Hd]; subst. rewrite get_ci_cons. cbn [filter fst].
+  destruct (bytes_eqb_spec (lower k) ln) as [E|E].
+  - cbn [map snd]. f_equal. subst ln. rewrite (IH Hd). apply get_ci_none in Hn. now rewrite Hn.
+  - exact (IH Hd).
+Qed.
+
+(* ---- value update by name, used for the recomputed Content-Length ---- *)
+Definition upd (ln v : bytes) (hs : bdict) : bdict :=
+  map (fun nv => if bytes_eqb (lower (fst nv)) ln then (fst nv, v) else nv) hs.
+
+Lemma lkeys_upd ln v hs : lkeys (upd ln v hs) = lkeys hs.
+Proof. unfold lkeys, upd. rewrite map_map. apply map_ext. intros [k w]. cbn [fst]. destruct (bytes_eqb (lower k) ln); reflexivity. Qed.
+
+Lemma upd_absent ln v hs : ~ In ln (lkeys hs) -> upd ln v hs = hs.
+Proof.
+  induction hs as [|[k w] t IH]; intros H; [reflexivity|]. cbn [lkeys map fst In] in H. cbn [upd map fst].
+  destruct (bytes_eqb_spec (lower k) ln) as [E|E]; [exfalso; apply H; now left|]. f_equal. apply IH. intros C. apply H. now right.
+Qed.
+
+Lemma put_ci_upd name v hs : NoDup (lkeys hs) -> has_key_ci (lower name) hs = true -> put_ci name v hs = upd (lower name) v hs.
+Proof.
+  induction hs as [|[k w] t IH]; intros Hn Hk; [discriminate|]. cbn [lkeys map fst] in Hn. inversion Hn as [|? ? N1 N2]; subst.
+  cbn [put_ci upd map fst]. destruct (bytes_eqb_spec (lower k) (lower name)) as [E|E].
+  - f_equal. symmetry. apply upd_absent. now rewrite <- E.
+  - f_equal. apply IH; [exact N2|]. cbn [has_key_ci existsb fst] in Hk. apply orb_true_iff in Hk as [Hk|Hk]; [|exact Hk].
+    apply bytes_eqb_eq in Hk. contradiction.
+Qed.
+
+Lemma upd_cons ln v k w t :
+  upd ln v ((k, w) :: t) = (if bytes_eqb (lower k) ln then (k, v) else (k, w)) :: upd ln v t.
+Proof. reflexivity. Qed.
+
+Lemma upd_filter (g : bytes -> bool) ln v hs :
+  upd ln v (filter (fun nv => negb (g (lower (fst nv)))) hs) = filter (fun nv => negb (g (lower (fst nv)))) (upd ln v hs).
+Proof.
+  induction hs as [|[k w] t IH]; [reflexivity|]. rewrite upd_cons. cbn [filter fst].
+  destruct (bytes_eqb (lower k) ln) eqn:E; cbn [filter fst]; destruct (g (lower k)); cbn [negb];
+    rewrite ?upd_cons, ?E, IH; reflexivity.
+Qed.
+
+Lemma upd_app ln v a b : upd ln v (a ++ b) = upd ln v a ++ upd ln v b.
+Proof. unfold upd. apply map_app. Qed.
+
+Lemma get_ci_upd_other ln' ln v hs : ln' <> ln -> get_ci ln' (upd ln v hs) = get_ci ln' hs.
+Proof.
+  intros H. induction hs as [|[k w] t IH]; [reflexivity|]. rewrite upd_cons.
+  destruct (bytes_eqb_spec (lower k) ln) as [E|E]; rewrite !get_ci_cons, IH; [|reflexivity].
+  destruct (bytes_eqb_spec (lower k) ln'); [congruence|reflexivity].
+Qed.
+
+Lemma upd_set_field ln v name w hs : lower name <> ln -> upd ln v (set_field name w hs) = set_field name w (upd ln v hs).
+Proof.
+  intros H. induction hs as [|[k x] t IH].
+  - cbn [set_field upd map fst]. destruct (bytes_eqb_spec (lower name) ln); [contradiction|reflexivity].
+  - rewrite upd_cons. cbn [set_field]. destruct (bytes_eqb_spec (lower k) (lower name)) as [E|E].
+    + rewrite upd_cons. destruct (bytes_eqb_spec (lower name) ln); [contradiction|].
+      destruct (bytes_eqb_spec (lower k) ln) as [E2|E2]; [congruence|]. cbn [set_field]. rewrite E.
+      now rewrite bytes_eqb_refl.
+    + rewrite upd_cons, IH. destruct (bytes_eqb (lower k) ln); cbn [set_field];
+        (destruct (bytes_eqb_spec (lower k) (lower name)); [contradiction|reflexivity]).
+Qed.
+
+Lemma upd_rewrite cfg ln v hs : ln <> L_VIA ->
+  upd ln v (rewrite_fields cfg hs) = rewrite_fields cfg (upd ln v hs).
+Proof.
+  intros H. unfold rewrite_fields, drop_disabled, drop_hop.
+  rewrite (upd_filter (fun l => mem_bytes l (cf_disable cfg))). f_equal.
+  unfold with_via. rewrite <- (upd_filter is_hop).
+  rewrite (get_ci_upd_other L_VIA ln v _ (fun C => H (eq_sym C))).
+  destruct (get_ci L_VIA _); apply upd_set_field; change (lower H_VIA) with L_VIA; congruence.
+Qed.
+
+Lemma has_key_ci_rewrite cfg ln hs : is_hop ln = false -> ln <> L_VIA -> mem_bytes ln (cf_disable cfg) = false ->
+  has_key_ci ln (rewrite_fields cfg hs) = has_key_ci ln hs.
+Proof. intros. rewrite !has_key_ci_get, get_ci_rewrite by assumption. reflexivity. Qed.
+
+(* ---- digits ---- *)
+Lemma decval_digits l : decval l = digits_val l.
+Proof.
+  unfold decval, digits_val. generalize 0. induction l as [|x t IH]; intros a; [reflexivity|]. cbn [fold_left digits_val_aux]. apply IH.
+Qed.
+
+Lemma digits_field_value l : l <> [] -> all_digits l = true -> rfc_value l = true /\ is_dec l = true.
+Proof.
+  intros Hne Hd. unfold all_digits in Hd. pose proof (forallb_In' _ _ Hd) as F. split.
+  - unfold rfc_value. apply andb_true_iff. split.
+    + apply forallb_forall. intros x Hx. apply F, is_digit_range in Hx. unfold is_field_byte.
+      replace (x =? 0) with false by (symmetry; apply N.eqb_neq; lia).
+      replace (x <=? 13) with false by (symmetry; apply N.leb_gt; lia). now rewrite andb_false_r.
+    + destruct l as [|x t]; [congruence|]. unfold stripped.
+      assert (W : forall y, In y (x :: t) -> is_ws y = false) by (intros y Hy; now apply digit_not_ws, F).
+      rewrite (W x) by now left. rewrite W; [reflexivity|].
+      destruct (exists_last (l := x :: t)) as (l' & y & E); [discriminate|]. rewrite E, last_last. apply in_or_app. right. now left.
+  - unfold is_dec. destruct l; [congruence|]. now rewrite Hd.
+Qed.
+
+(* ---- the Via value is a proper field value ---- *)
+Lemma last_app_ne (a b : bytes) d : b <> [] -> last (a ++ b) d = last b d.
+Proof.
+  intros H. induction a as [|x t IH]; [reflexivity|]. cbn [app]. destruct (t ++ b) eqn:E.
+  - apply app_eq_nil in E. destruct E; contradiction.
+  - cbn [last]. exact IH.
+Qed.
+
+Lemma rfc_value_parts v : rfc_value v = true <-> forallb is_field_byte v = true /\ stripped v = true.
+Proof. unfold rfc_value. apply andb_true_iff. Qed.
+
+Lemma stripped_app (pre agent : bytes) : agent <> [] -> is_ws (last agent 0) = false ->
+  match pre ++ agent with x :: _ => is_ws x = false | [] => True end -> stripped (pre ++ agent) = true.
+Proof.
+  intros Hne Hl Hh. destruct (pre ++ agent) as [|x t] eqn:E; [reflexivity|]. unfold stripped. rewrite Hh.
+  rewrite <- E, (last_app_ne pre agent 0 Hne), Hl. reflexivity.
+Qed.
+
+Lemma via_value_ok agent old : nonempty agent = true -> rfc_value agent = true -> rfc_value old = true ->
+  rfc_value (via_entry agent) = true /\ rfc_value (old ++ COMMA_SP ++ via_entry agent) = true.
+Proof.
+  intros Hne Ha Ho. apply rfc_value_parts in Ha as [Af As]. apply rfc_value_parts in Ho as [Of Os].
+  apply nonempty_ne in Hne.
+  assert (Al : is_ws (last agent 0) = false).
+  { destruct agent as [|x t]; [congruence|]. unfold stripped in As. apply andb_true_iff in As as [_ H]. now apply negb_true_iff in H. }
+  split; apply rfc_value_parts; split.
+  - unfold via_entry. rewrite forallb_app, Af. reflexivity.
+  - unfold via_entry. apply stripped_app; [exact Hne|exact Al|reflexivity].
+  - unfold via_entry. rewrite !forallb_app, Of, Af. reflexivity.
+  - unfold via_entry. rewrite !app_assoc. rewrite <- (app_assoc old). apply stripped_app; [exact Hne|exact Al|].
+    destruct old as [|x t]; [reflexivity|]. unfold stripped in Os. apply andb_true_iff in Os as [O1 _].
+    apply negb_true_iff in O1. exact O1.
+Qed.
+
+Lemma Forall_filter {A} (P : A -> Prop) f l : Forall P l -> Forall P (filter f l).
+Proof. intros H. apply Forall_forall. intros x Hx. apply filter_In in Hx as [Hx _]. rewrite Forall_forall in H. now apply H. Qed.
+
+Lemma Forall_set_field P name v hs : Forall P hs -> P (name, v) -> Forall P (set_field name v hs).
+Proof.
+  intros H Hp. induction hs as [|[k w] t IH]; cbn [set_field]; [constructor; [exact Hp|constructor]|].
+  inversion H; subst. destruct (bytes_eqb (lower k) (lower name)); constructor; auto.
+Qed.
+
+Lemma get_ci_In ln hs v : get_ci ln hs = Some v -> exists k, In (k, v) hs.
+Proof.
+  induction hs as [|[k w] t IH]; [discriminate|]. rewrite get_ci_cons. destruct (bytes_eqb (lower k) ln).
+  - intros H; inversion H; subst. exists k. now left.
+  - intros H. destruct (IH H) as [k' Hk]. exists k'. now right.
+Qed.
+
+Lemma out_field_rewrite cfg hs : nonempty (cf_agent cfg) = true -> rfc_value (cf_agent cfg) = true ->
+  Forall out_field hs -> Forall out_field (rewrite_fields cfg hs).
+Proof.
+  intros Hne Ha H. unfold rewrite_fields, drop_disabled. apply Forall_filter. unfold with_via.
+  assert (Hd : Forall out_field (drop_hop hs)) by (unfold drop_hop; now apply Forall_filter).
+  assert (Tk : is_token H_VIA = true) by reflexivity.
+  destruct (get_ci L_VIA (drop_hop hs)) as [old|] eqn:E.
+  - destruct (get_ci_In _ _ _ E) as [k Hk]. rewrite Forall_forall in Hd. destruct (Hd _ Hk) as [_ Ho]. cbn [snd] in Ho.
+    destruct (via_value_ok (cf_agent cfg) old Hne Ha Ho) as [V1 V2].
+    apply Forall_set_field; [now apply Forall_forall|]. split; [exact Tk|]. cbn [snd]. destruct (cf_via_append cfg); assumption.
+  - destruct (via_value_ok (cf_agent cfg) [] Hne Ha eq_refl) as [V1 _].
+    apply Forall_set_field; [exact Hd|]. split; [exact Tk|exact V1].
+Qed.
+
+(* ---- the fields of a well-formed request ---- *)
+Lemma field_out f : wf_field f = true -> out_field (field_nv f).
+Proof. intros W. destruct (wf_field_parts f W) as (A & _ & B & _). split; assumption. Qed.
+
+Lemma fields_out fs : forallb wf_field fs = true -> Forall out_field (map field_nv fs).
+Proof.
+  induction fs as [|f t IH]; intros H; [constructor|]. cbn [forallb] in H. apply andb_true_iff in H as [H1 H2].
+  cbn [map]. constructor; [now apply field_out|now apply IH].
+Qed.
+
+Lemma get_ci_other_fields ln fs : forallb other_field fs = true -> ln = CONTENT_LENGTH \/ ln = TRANSFER_ENCODING ->
+  get_ci ln (map field_nv fs) = None /\ ~ In ln (lkeys (map field_nv fs)).
+Proof.
+  intros H Hl. destruct (others_other_ok fs H) as [O _]. pose proof (get_ci_others ln _ O Hl) as G.
+  split; [exact G|now apply get_ci_none].
+Qed.
+
+Section Composition.
+  Variable cfg : fcfg.
+  Variable r : request.
+  Variable p : parser.
+  Hypothesis Wr : wf_request r = true.
+  Hypothesis Wc : wf_cfg cfg = true.
+  Hypothesis Pa : parsed_as r p.
+
+  Let P := wf_request_parts r Wr.
+
+  Lemma wf_cfg_parts : cf_via_append cfg = true /\ cf_upgrade_complete cfg = true /\ nonempty (cf_agent cfg) = true /\
+    rfc_value (cf_agent cfg) = true /\ mem_bytes CONTENT_LENGTH (cf_disable cfg) = false /\
+    mem_bytes TRANSFER_ENCODING (cf_disable cfg) = false.
+  Proof.
+    unfold wf_cfg in Wc. apply andb_true_iff in Wc as [H H6]. apply andb_true_iff in H as [H H5].
+    apply andb_true_iff in H as [H H4]. apply andb_true_iff in H as [H H3]. apply andb_true_iff in H as [H1 H2].
+    apply negb_true_iff in H5, H6. tauto.
+  Qed.
+
+  Let hs := map field_nv (all_fields r).
+
+  Lemma fields_of_parsed : fields_of_parser p = hs /\ U p = map lift1 hs.
+  Proof.
+    unfold fields_of_parser. rewrite (pa_headers r p Pa). fold hs. unfold lift_headers.
+    destruct hs as [|kv t]; [split; reflexivity|]. cbn [unopt]. split; [apply (view_lift (kv :: t))|reflexivity].
+  Qed.
+
+  Lemma wire_body_parsed :
+    wire_body p = match q_framing r with
+                  | RNone => None
+                  | RLength _ d => optb d
+                  | RChunked _ s => Some (rechunk (ref_dechunk s))
+                  end.
+  Proof.
+    unfold wire_body. rewrite (pa_body r p Pa), (pa_chunked r p Pa).
+    destruct (q_framing r) as [|h d|h s]; cbn [body_of_framing chunked_framing]; [reflexivity| |reflexivity].
+    destruct d; reflexivity.
+  Qed.
+
+  (* the framing field among the client's fields *)
+  Lemma get_framing ln : ln = CONTENT_LENGTH \/ ln = TRANSFER_ENCODING -> forall mid,
+    get_ci ln (map field_nv (q_hs1 r) ++ mid ++ map field_nv (q_hs2 r)) = get_ci ln mid.
+  Proof.
+    intros Hl mid. rewrite !get_ci_app.
+    destruct (get_ci_other_fields ln _ (wp_hs1 r P) Hl) as [-> _].
+    destruct (get_ci_other_fields ln _ (wp_hs2 r P) Hl) as [-> _]. destruct (get_ci ln mid); reflexivity.
+  Qed.
+
+  Lemma hs_split : hs = map field_nv (q_hs1 r) ++ map field_nv (framing_fields (q_framing r)) ++ map field_nv (q_hs2 r).
+  Proof. unfold hs, all_fields. now rewrite !map_app. Qed.
+
+  (* Content-Length as recomputed by the builder = the client's fields with the canonical spelling *)
+  Lemma recomputed_fields :
+    recompute_cl (rewrite_fields cfg hs) (wire_body p) = rewrite_fields cfg (client_fields r).
+  Proof.
+    destruct wf_cfg_parts as (_ & _ & _ & _ & D1 & D2).
+    pose proof (nodup_fields r P) as Hn. fold hs in Hn. rewrite hs_split in Hn.
+    unfold recompute_cl. rewrite wire_body_parsed.
+    rewrite has_key_ci_rewrite by (try reflexivity; try discriminate; exact D2).
+    rewrite has_key_ci_get. rewrite hs_split, (get_framing TRANSFER_ENCODING (or_intror eq_refl)).
+    pose proof (wp_framing r P) as Wf. unfold client_fields.
+    destruct (q_framing r) as [|h d|h s] eqn:Ef; cbn [framing_fields map framing_nv].
+    - reflexivity.
+    - cbn [wf_framing] in Wf. apply andb_true_iff in Wf as [Wf _]. apply andb_true_iff in Wf as [Wf _].
+      apply andb_true_iff in Wf as [Wf _]. apply andb_true_iff in Wf as [Wf _]. apply andb_true_iff in Wf as [_ Wn].
+      unfold name_is in Wn. apply bytes_eqb_eq in Wn.
+      assert (Gte : get_ci TRANSFER_ENCODING [field_nv h] = None).
+      { unfold field_nv. rewrite get_ci_cons. cbn [fst]. rewrite Wn. reflexivity. }
+      rewrite Gte. destruct d as [|x t]; [reflexivity|]. cbn [optb truthy negb andb or_empty].
+      rewrite put_ci_upd.
+      + change (lower H_CONTENT_LENGTH) with CONTENT_LENGTH. rewrite upd_rewrite by discriminate. f_equal.
+        rewrite !upd_app.
+        destruct (get_ci_other_fields CONTENT_LENGTH _ (wp_hs1 r P) (or_introl eq_refl)) as [_ N1].
+        destruct (get_ci_other_fields CONTENT_LENGTH _ (wp_hs2 r P) (or_introl eq_refl)) as [_ N2].
+        rewrite (upd_absent _ _ _ N1), (upd_absent _ _ _ N2). unfold field_nv at 2. rewrite upd_cons, Wn, bytes_eqb_refl. reflexivity.
+      + apply NoDup_rewrite. exact Hn.
+      + change (lower H_CONTENT_LENGTH) with CONTENT_LENGTH.
+        rewrite has_key_ci_rewrite by (try reflexivity; try discriminate; exact D1).
+        rewrite has_key_ci_get, (get_framing CONTENT_LENGTH (or_introl eq_refl)). unfold field_nv. rewrite get_ci_cons. cbn [fst].
+        now rewrite Wn, bytes_eqb_refl.
+    - cbn [wf_framing] in Wf. apply andb_true_iff in Wf as [Wf _]. apply andb_true_iff in Wf as [Wf _].
+      apply andb_true_iff in Wf as [_ Wn]. unfold name_is in Wn. apply bytes_eqb_eq in Wn.
+      unfold field_nv at 1. rewrite get_ci_cons. cbn [fst]. rewrite Wn, bytes_eqb_refl. cbn [negb]. rewrite andb_false_r. reflexivity.
+  Qed.
+End Composition.
+
+Lemma lkeys_client_fields r : lkeys (client_fields r) = lkeys (map field_nv (all_fields r)).
+Proof.
+  unfold client_fields, all_fields. rewrite !map_app, !lkeys_app. f_equal. f_equal.
+  destruct (q_framing r) as [|h [|x t]|h s]; reflexivity.
+Qed.
+
+Lemma client_fields_out r : wf_parts r -> Forall out_field (client_fields r).
+Proof.
+  intros P. destruct (others_other_ok _ (wp_hs1 r P)) as [_ W1]. destruct (others_other_ok _ (wp_hs2 r P)) as [_ W2].
+  destruct (wf_framing_parts _ (wp_framing r P)) as [_ Wf]. unfold client_fields.
+  apply Forall_app. split; [now apply fields_out|]. apply Forall_app. split; [|now apply fields_out].
+  destruct (q_framing r) as [|h [|x t]|h s]; cbn [framing_nv framing_fields forallb] in *.
+  - constructor.
+  - apply andb_true_iff in Wf as [Wf _]. constructor; [now apply field_out|constructor].
+  - apply andb_true_iff in Wf as [Wf _]. destruct (field_out h Wf) as [Hn _]. constructor; [|constructor].
+    split; [exact Hn|]. cbn [snd].
+    destruct (dec_of_N_spec (len (x :: t))) as (D1 & D2 & _). now apply digits_field_value.
+  - apply andb_true_iff in Wf as [Wf _]. constructor; [now apply field_out|constructor].
+Qed.
+
+Lemma origin_form_facts r p : wf_parts r -> parsed_as r p ->
+  path_or_slash p = origin_form (q_target r) /\ nonempty (origin_form (q_target r)) = true /\
+  forallb is_vchar (origin_form (q_target r)) = true.
+Proof.
+  intros P Pa. pose proof (pa_attrs r p Pa) as A. pose proof (wp_abs r P) as Ha. pose proof (wp_target r P) as Wt.
+  pose proof (wp_vchar r P) as Wv. unfold path_or_slash.
+  destruct (q_target r) as [pp|ui h pt pa|h q]; try discriminate. cbn [UrlSpec.expected] in A.
+  assert (Ep : path p = pa) by congruence. rewrite Ep. cbn [origin_form].
+  cbn [wf_target] in Wt. apply andb_true_iff in Wt as [_ Wpa].
+  cbn [render_target] in Wv. rewrite !forallb_app in Wv.
+  apply andb_true_iff in Wv as [_ Wv]. apply andb_true_iff in Wv as [_ Wv]. apply andb_true_iff in Wv as [_ Wv].
+  apply andb_true_iff in Wv as [_ Wv].
+  destruct pa as [[|x t]|]; cbn [render_path] in *; try discriminate; repeat split; try reflexivity; assumption.
+Qed.
+
+Theorem forward_ref cfg r p : wf_request r = true -> wf_cfg cfg = true -> parsed_as r p ->
+  ref_parse_request (forward_of_parsed cfg false p) = Some (expected_fwd cfg r).
+Proof.
+  intros Wr Wc Pa. pose proof (wf_request_parts r Wr) as P.
+  destruct (wf_cfg_parts cfg Wc) as (Cv & _ & Cne & Ca & D1 & D2).
+  destruct (origin_form_facts r p P Pa) as (O1 & O2 & O3).
+  destruct (fields_of_parsed r p Pa) as [Ef _].
+  unfold forward_of_parsed, forwarded_fields. rewrite Ef.
+  change (drop_disabled cfg (with_via cfg (drop_hop (map field_nv (all_fields r)))))
+    with (rewrite_fields cfg (map field_nv (all_fields r))).
+  rewrite (recomputed_fields cfg r p Wr Wc Pa), O1, (pa_method r p Pa), (pa_version r p Pa). cbn [or_empty].
+  assert (Ee : rewrite_fields cfg (client_fields r) = expected_headers cfg r).
+  { unfold rewrite_fields, expected_headers. now rewrite with_via_appended. }
+  unfold expected_fwd. rewrite <- Ee.
+  apply ref_parse_render; try assumption.
+  - exact (wp_method r P).
+  - exact (wp_version r P).
+  - apply out_field_rewrite; [exact Cne|exact Ca|now apply client_fields_out].
+  - (* framing *)
+    assert (Nc : NoDup (lkeys (client_fields r))) by (rewrite lkeys_client_fields; now apply nodup_fields).
+    unfold framing_out. rewrite !fields_named_get by now apply NoDup_rewrite.
+    rewrite !get_ci_rewrite by (try reflexivity; try discriminate; assumption).
+    unfold client_fields.
+    rewrite (get_framing r Wr TRANSFER_ENCODING (or_intror eq_refl)), (get_framing r Wr CONTENT_LENGTH (or_introl eq_refl)).
+    rewrite (wire_body_parsed r p Pa). pose proof (wp_framing r P) as Wf.
+    destruct (q_framing r) as [|h d|h s]; cbn [framing_nv decoded_body or_empty].
+    + split; reflexivity.
+    + cbn [wf_framing] in Wf. apply andb_true_iff in Wf as [Wf W6]. apply andb_true_iff in Wf as [Wf W5].
+      apply andb_true_iff in Wf as [Wf W4]. apply andb_true_iff in Wf as [Wf W3]. apply andb_true_iff in Wf as [W1 W2].
+      unfold name_is in W2. apply bytes_eqb_eq in W2. apply N.eqb_eq in W6.
+      assert (T : bytes_eqb CONTENT_LENGTH TRANSFER_ENCODING = false) by reflexivity.
+      destruct d as [|x t]; cbn [framing_nv optb or_empty]; unfold field_nv; rewrite !get_ci_cons; cbn [fst]; rewrite W2, T, bytes_eqb_refl;
+        cbn [get_ci find].
+      * destruct (digits_field_value _ (nonempty_ne _ W3) W4) as [_ Hd]. rewrite decval_digits. repeat split; assumption.
+      * destruct (dec_of_N_spec (len (x :: t))) as (E1 & E2 & E3).
+        destruct (digits_field_value _ E1 E2) as [_ Hd]. rewrite decval_digits. repeat split; assumption.
+    + cbn [wf_framing] in Wf. apply andb_true_iff in Wf as [Wf W4]. apply andb_true_iff in Wf as [Wf W3].
+      apply andb_true_iff in Wf as [W1 W2]. unfold name_is in W2. apply bytes_eqb_eq in W2, W3.
+      assert (T : bytes_eqb TRANSFER_ENCODING CONTENT_LENGTH = false) by reflexivity.
+      unfold field_nv; rewrite !get_ci_cons; cbn [fst]; rewrite W2, T, bytes_eqb_refl. cbn [get_ci find].
+      split; [exact W3|apply ref_dechunk_rechunk].
+Qed.
+
+(* ===================================================================================== *)
+(* D. the handler: pieces, first and later requests                                        *)
+
+Definition nonempty_pieces (segs : list bytes) : Prop := Forall (fun s => s <> []) segs.
+
+Lemma concat_nil_pieces segs : nonempty_pieces segs -> concat segs = [] -> segs = [].
+Proof.
+  intros F E. destruct segs as [|x t]; [reflexivity|]. inversion F; subst. cbn [concat] in E.
+  apply app_eq_nil in E. destruct E; contradiction.
+Qed.
+
+(* one more piece: either it is the last one and completes the message, or the parser is still incomplete *)
+Lemma pieces_progress q x t pf : parser_inv q -> nonempty_pieces t ->
+  parse q (x ++ concat t) = Ok pf -> state pf = COMPLETE -> buffer pf = None ->
+  exists q1, parse q x = Ok q1 /\ parser_inv q1 /\
+             ((t = [] /\ q1 = pf) \/ (t <> [] /\ state q1 <> COMPLETE /\ parse q1 (concat t) = Ok pf)).
+Proof.
+  intros I F H C B. destruct (two_piece q x (concat t) pf I H (framed_complete pf C)) as (q1 & H1 & H2).
+  exists q1. split; [exact H1|]. assert (I1 : parser_inv q1) by (eapply parse_inv; eassumption). split; [exact I1|].
+  destruct (N.eq_dec (state q1) COMPLETE) as [C1|C1].
+  - left. pose proof H2 as H2'. unfold parse in H2'. rewrite (parse_with_complete_absorbs _ q1 (concat t) I1 C1) in H2'.
+    inversion H2' as [H3]. assert (Hb : optb (bufb q1 ++ concat t) = None) by (rewrite <- H3 in B; exact B).
+    destruct (bufb q1 ++ concat t) eqn:E; [|discriminate]. apply app_eq_nil in E as [_ E].
+    pose proof (concat_nil_pieces t F E) as ->. split; [reflexivity|].
+    cbn [concat] in H2. unfold parse in H2. rewrite (parse_with_nil _ q1 I1) in H2. congruence.
+  - right. destruct t as [|y t']; [|split; [discriminate|split; assumption]].
+    exfalso. cbn [concat] in H2. unfold parse in H2. rewrite (parse_with_nil _ q1 I1) in H2. congruence.
+Qed.
+
+(* the except clause of handle_data *)
+Definition catch (o : outcome) : outcome :=
+  match o with
+  | Raised (HttpProtocolException k) st' =>
+      Done true (match exc_response k with Some c => queue_client st' c | None => st' end)
+  | _ => o
+  end.
+
+Lemma handle_data_first cfg ok st data : state (h_request st) <> COMPLETE ->
+  handle_data cfg ok st data = catch (parse_first_request cfg ok st data).
+Proof. intros H. unfold handle_data. apply N.eqb_neq in H. rewrite H. reflexivity. Qed.
+
+Lemma handle_data_later cfg ok st data : state (h_request st) = COMPLETE -> h_plugin st = true ->
+  handle_data cfg ok st data = catch (on_client_data cfg st data).
+Proof. intros H Hp. unfold handle_data. rewrite H, Hp. reflexivity. Qed.
+
+Lemma feed_last cfg ok st x : feed cfg ok st [x] = handle_data cfg ok st x.
+Proof. cbn [feed]. destruct (handle_data cfg ok st x) as [[|] st'|e st']; reflexivity. Qed.
+
+(* ---- first request ---- *)
+Lemma feed_first cfg ok pf : forall segs st,
+  parser_inv (h_request st) -> state (h_request st) <> COMPLETE -> nonempty_pieces segs ->
+  parse (h_request st) (concat segs) = Ok pf -> state pf = COMPLETE -> buffer pf = None ->
+  http_handler_protocol pf = HTTP_PROXY ->
+  feed cfg ok st segs = catch (on_request_complete cfg ok (set_plugin (set_request st pf))).
+Proof.
+  induction segs as [|x t IH]; intros st I N F H C B Hp.
+  - exfalso. cbn [concat] in H. unfold parse in H. rewrite (parse_with_nil _ _ I) in H. congruence.
+  - inversion F as [|? ? Fx Ft]; subst. cbn [concat] in H.
+    destruct (pieces_progress _ x t pf I Ft H C B) as (q1 & H1 & I1 & [[-> ->]|(Tn & N1 & H2)]).
+    + rewrite feed_last, handle_data_first by exact N. unfold parse_first_request. rewrite H1.
+      unfold is_complete. rewrite C. cbn [negb N.eqb]. change (COMPLETE =? COMPLETE) with true. cbn [negb]. now rewrite Hp.
+    + cbn [feed]. rewrite handle_data_first by exact N. unfold parse_first_request. rewrite H1.
+      unfold is_complete. apply N.eqb_neq in N1. rewrite N1. cbn [negb catch].
+      apply N.eqb_neq in N1. exact (IH (set_request st q1) I1 N1 Ft H2 C B Hp).
+Qed.
+
+(* ---- later requests ---- *)
+Record conn_ready (st : hstate) : Prop := {
+  cr_complete : state (h_request st) = COMPLETE;
+  cr_not_tunnel : is_https_tunnel (h_request st) = false;
+  cr_plugin : h_plugin st = true;
+  cr_upstream : exists up, h_upstream st = Some up /\ up_closed up = false }.
+
+Definition cur (st : hstate) : parser :=
+  match h_pipeline st with Some q => q | None => new_parser REQUEST_PARSER end.
+
+(* what on_client_data does with the forwarded request *)
+Definition after_forward (st : hstate) (q'' : parser) (w : bytes) : hstate :=
+  match h_upstream st with
+  | Some up => set_pipeline (set_upstream st (Some (queue_upstream up w)))
+                            (if is_connection_upgrade q'' then Some q'' else None)
+  | None => st
+  end.
+
+Lemma on_client_data_step cfg st raw q' : conn_ready st -> cf_upgrade_complete cfg = true ->
+  state (cur st) <> COMPLETE -> parse (cur st) raw = Ok q' ->
+  on_client_data cfg st raw =
+  if is_complete q' then
+    match queue_request_for_upstream cfg false q' with
+    | Err e => Raised e (set_pipeline st (Some q'))
+    | Ok (q'', w) => Done false (after_forward st q'' w)
+    end
+  else Done false (set_pipeline st (Some q')).
+Proof.
+  intros R Cu N H. destruct R as [Rc Rt Rp (up & Ru & Rcl)]. unfold on_client_data, after_forward. rewrite Ru, Rcl.
+  unfold is_complete at 1. rewrite Rc, Rt. change (COMPLETE =? COMPLETE) with true. cbn [negb andb].
+  unfold cur in N, H. destruct (h_pipeline st) as [q|].
+  - rewrite Cu. cbn [negb orb]. unfold is_complete at 1. apply N.eqb_neq in N. rewrite N. cbn [andb]. rewrite H. reflexivity.
+  - rewrite H. reflexivity.
+Qed.
+
+Lemma conn_ready_pipeline st q : conn_ready st -> conn_ready (set_pipeline st q).
+Proof. intros [A B C D]. constructor; assumption. Qed.
+
+Lemma feed_later cfg ok pf : forall segs st,
+  conn_ready st -> cf_upgrade_complete cfg = true ->
+  parser_inv (cur st) -> state (cur st) <> COMPLETE -> nonempty_pieces segs ->
+  parse (cur st) (concat segs) = Ok pf -> state pf = COMPLETE -> buffer pf = None ->
+  feed cfg ok st segs =
+  catch (match queue_request_for_upstream cfg false pf with
+         | Err e => Raised e (set_pipeline st (Some pf))
+         | Ok (q'', w) => Done false (after_forward st q'' w)
+         end).
+Proof.
+  induction segs as [|x t IH]; intros st R Cu I N F H C B.
+  - exfalso. cbn [concat] in H. unfold parse in H. rewrite (parse_with_nil _ _ I) in H. congruence.
+  - inversion F as [|? ? Fx Ft]; subst. cbn [concat] in H.
+    destruct (pieces_progress _ x t pf I Ft H C B) as (q1 & H1 & I1 & [[-> ->]|(Tn & N1 & H2)]).
+    + rewrite feed_last, handle_data_later by apply R.
+      rewrite (on_client_data_step cfg st x pf R Cu N H1). unfold is_complete. rewrite C. reflexivity.
+    + cbn [feed]. rewrite handle_data_later by apply R.
+      rewrite (on_client_data_step cfg st x q1 R Cu N H1). unfold is_complete. apply N.eqb_neq in N1. rewrite N1. cbn [catch].
+      apply N.eqb_neq in N1.
+      pose proof (IH (set_pipeline st (Some q1)) (conn_ready_pipeline st _ R) Cu I1 N1 Ft H2 C B) as G.
+      rewrite G. destruct (queue_request_for_upstream cfg false pf) as [[q'' w]|e]; [|reflexivity].
+      destruct R as [_ _ _ (up & Ru & _)]. unfold after_forward. cbn [h_upstream set_pipeline]. rewrite Ru. reflexivity.
 Qed.
